@@ -35,7 +35,7 @@ ASSUMPTIONS = [
 ]
 LEVEL_TEXT = "Random exploration of all views with structured and mutated inputs; DNS round trip against an independent wire parser."
 LEVEL_NOTE = "flow/message construction via mitmproxy.test.tflow; zipfile/json from the standard library to build inputs"
-QUICK_N = 30_000
+QUICK_N = 17_000
 THOROUGH_N = 3_000_000
 
 VIEWS = ["auto", "dns", "graphql", "grpc", "hex dump", "hex stream", "http/3 frames", "image", "javascript", "json", "mqtt",
